@@ -32,6 +32,7 @@ func Run(c *core.Ctx) {
 	// fixed cases first: defect F2 and its neighbours
 	for _, nm := range utf8Names {
 		doUTF8(c, nm)
+		doUTF8Inner(c, nm)
 	}
 	for _, l := range fixedLiterals {
 		doFloat(c, l)
@@ -69,10 +70,13 @@ func Run(c *core.Ctx) {
 	}
 	for _, s := range fixedMulti {
 		doMulti(c, s)
+		doMore(c, s)
 	}
 	mm := c.Scale(150, 1500)
 	for i := 0; i < mm; i++ {
-		doMulti(c, genMulti(c.G))
+		txt := genMulti(c.G)
+		doMulti(c, txt)
+		doMore(c, txt)
 	}
 }
 
@@ -102,12 +106,24 @@ func Replay(c *core.Ctx, lines []string) {
 				panic(err)
 			}
 			doMulti(c, s)
+		case "C01.more":
+			s, err := core.Unescape(f[1])
+			if err != nil {
+				panic(err)
+			}
+			doMore(c, s)
 		case "C01.float":
 			s, err := core.Unescape(f[1])
 			if err != nil {
 				panic(err)
 			}
 			doFloat(c, s)
+		case "C01.utf8i":
+			s, err := core.Unescape(f[1])
+			if err != nil {
+				panic(err)
+			}
+			doUTF8Inner(c, s)
 		case "C01.utf8":
 			s, err := core.Unescape(f[1])
 			if err != nil {
@@ -400,6 +416,39 @@ func doMulti(c *core.Ctx, s string) {
 	c.Emit("C01.multi", core.Escape(s), strings.Join(classes, ","), strings.Join(dumps, "|"))
 }
 
+// doMore: the loop of utils.ReadMultiTrees over one line (3850fd2): ONE Parser,
+// `for more := true; more; more = p.More() { Parse … break on error }` (at most 12 turns).
+func doMore(c *core.Ctx, s string) {
+	p := newick.NewParser(strings.NewReader(s))
+	var classes []string
+	var dumps []string
+	turns := 0
+	for more := true; more && turns < 12; turns++ {
+		var t *tree.Tree
+		var err error
+		if pn, msg := core.Safe(func() { t, err = p.Parse() }); pn {
+			classes = append(classes, "panic:"+core.Escape(msg))
+			break
+		}
+		if err != nil {
+			classes = append(classes, "err")
+			break
+		}
+		a, wf := core.Alpha(t)
+		if !wf.OK() {
+			classes = append(classes, "panic:malformed")
+			break
+		}
+		classes = append(classes, "ok")
+		dumps = append(dumps, a.Dump())
+		if pn, msg := core.Safe(func() { more = p.More() }); pn {
+			classes = append(classes, "panic:more:"+core.Escape(msg))
+			break
+		}
+	}
+	c.Emit("C01.more", core.Escape(s), strings.Join(classes, ","), strings.Join(dumps, "|"))
+}
+
 var fixedMulti = []string{"(a,b);(c,d);", "(a,b);\n(c,d);\n", "(a,b); [x] (c,d);", "(a,b);(c,d)", "(a,b);;(c,d);", "(a,b)(c,d);", "(a,b);x(c,d);",
 	"(a,b)); (c,d);", "(a,b);(c:inf,d);(e,f);", "", ";", "(a,b);   ", "[h](a,b);[i](c,d);[j]", "(a,b);(c,(d,e)f)g;((h));", "(a,b),(c);(d,e);"}
 
@@ -557,11 +606,11 @@ func genMulti(g *core.G) string {
 func doFloat(c *core.Ctx, lit string) {
 	v, err := strconv.ParseFloat(lit, 64)
 	if err != nil {
-		c.Emit("C01.float", core.Escape(lit), "bad", "", "", "")
+		c.Emit("C01.float", core.Escape(lit), "bad", "", "", "", "")
 		return
 	}
 	if math.IsNaN(v) || math.IsInf(v, 0) {
-		c.Emit("C01.float", core.Escape(lit), "nonfin", "", "", "")
+		c.Emit("C01.float", core.Escape(lit), "nonfin", "", "", "", "")
 		return
 	}
 	text := strconv.FormatFloat(v, 'f', -1, 64)
@@ -573,7 +622,8 @@ func doFloat(c *core.Ctx, lit string) {
 			bs = "1"
 		}
 	}
-	c.Emit("C01.float", core.Escape(lit), "fin", core.Rat(v), core.Escape(text), bs)
+	// the text of the value read back: tells -0 from 0, which have the same rational
+	c.Emit("C01.float", core.Escape(lit), "fin", core.Rat(v), core.Escape(text), bs, core.Escape(strconv.FormatFloat(back, 'f', -1, 64)))
 }
 
 // doUTF8: a three-tip tree one of whose tips carries the given bytes as its name.
@@ -596,6 +646,29 @@ func doUTF8(c *core.Ctx, name string) {
 		return
 	}
 	c.Emit("C01.utf8", core.Escape(name), "ok", core.Escape(a2.Kids[0].Name), core.Escape(text1), core.Escape(t2.Newick()))
+}
+
+// doUTF8Inner: the same bytes as the name of an inner node.
+func doUTF8Inner(c *core.Ctx, name string) {
+	in := &core.N{Name: name, E: core.NewE(), Kids: []*core.N{{Name: "x", E: core.NewE()}, {Name: "y", E: core.NewE()}}}
+	n := &core.N{Kids: []*core.N{in, {Name: "b", E: core.NewE()}, {Name: "c", E: core.NewE()}}}
+	core.NumberEdges(n)
+	t, err := core.Build(n)
+	if err != nil {
+		panic(err)
+	}
+	text1 := t.Newick()
+	t2, outcome := parseText(text1)
+	if outcome != "ok" {
+		c.Emit("C01.utf8i", core.Escape(name), outcome, "", core.Escape(text1), "")
+		return
+	}
+	a2, wf := core.Alpha(t2)
+	if !wf.OK() || len(a2.Kids) < 1 {
+		c.Emit("C01.utf8i", core.Escape(name), "shape", "", core.Escape(text1), "")
+		return
+	}
+	c.Emit("C01.utf8i", core.Escape(name), "ok", core.Escape(a2.Kids[0].Name), core.Escape(text1), core.Escape(t2.Newick()))
 }
 
 // names for the utf8 op: the first ones are not valid UTF-8 (defect F2), the others are and must survive
@@ -642,13 +715,17 @@ func genValue(g *core.G, mode int) float64 {
 }
 
 var tipNameFmt = []string{"t%d", "t%d", "t%d", "%d", "1e%d", "a b%d", "x/y%d", "'q%d'", "é%d", "日本%d", "0.5/0.%d", "inf%d", "a\x00b%d",
-	"T_%d|x=1", "a\tb%d", "a b%d", "{%d}", "-%d", "0x%dp1", "\"%d\"", "%d_0", "a  b%d", "\U0001F600%d", "+.%d"}
+	"T_%d|x=1", "a\tb%d", "a b%d", "{%d}", "-%d", "0x%dp1", "\"%d\"", "%d_0", "a  b%d", "\U0001F600%d", "+.%d",
+	// printf- and escape-sensitive characters are ordinary name characters
+	"p%%%d", "%%d%d", "%%s_%d", "a\\b%d", "a%%%%b%d", "%%!%d", "$%d", "`%d`", "\\n%d", "%%v%d", "#%d", "&%d", "<%d>", "~%d^", "*%d?", "a=b%d", "@%d", "95%%_%d", "%%%d%%"}
 
-var innerNames = []string{"N%d", "N%d", "x/y%d", "1/x%d", "in %d", "é%d", "n%d ", "a%d/1", "1e%dz", "0x%d", "-", "_%d", "p/q/r%d", "/%d", "%d/"}
+var innerNames = []string{"N%d", "N%d", "x/y%d", "1/x%d", "in %d", "é%d", "n%d ", "a%d/1", "1e%dz", "0x%d", "-", "_%d", "p/q/r%d", "/%d", "%d/", "%%%d", "n\\%d", "N%%d_%d", "%%s%d", "100%%_%d", "\\\\%d"}
 
 var comments = []string{"&x=1", "c", "a b", "&&NHX:S=x", "k;(),:[", "", " ", "[[", "1.5", "é;", "a\x00", "(", ";",
 	// runs of blanks: a WS token of the comment scanner (at the start, or right after a metacharacter) must come back whole
-	"  ", "   x", "\t\t", " \t ", "    ", "a(  b", "x,   y", ":  1", ")\t\tz", "[  [", "(\t \t)", "\n\n x", "k:\r\n v", "a  b", " ( , ) ", ";  ;"}
+	"  ", "   x", "\t\t", " \t ", "    ", "a(  b", "x,   y", ":  1", ")\t\tz", "[  [", "(\t \t)", "\n\n x", "k:\r\n v", "a  b", " ( , ) ", ";  ;",
+	// printf- and escape-sensitive contents: a writer or reader that formats / unescapes must not touch them
+	"&bootstrap=95%", "%", "%d", "%s", "%%", "100%!", "\\", "\\n", "%v %x", "{%}", "\"q\"", "'", "$1", "`", "\\t", "%\x00", "%!(EXTRA)", "a%20b", "&#38;", "\\\\"}
 
 func genComment(g *core.G) string { return comments[g.Intn(len(comments))] }
 
